@@ -196,6 +196,17 @@ def run_check(modname, tier, seed):
                 samples.append(s)
         for v in fin.get('viol') or []:
             viols.append((v, v.get('job') or {}))
+    if getattr(mod, 'CRASH_IS_VIOLATION', False):
+        # a worker that dies from SIGSEGV / SIGABRT / SIGBUS / SIGILL / SIGFPE while it executes the code under test is a
+        # memory-safety event of that code (checks that opt in run pure computations; a watchdog kill is rc 'timeout' / -9)
+        for p_ in problems:
+            if isinstance(p_.get('rc'), int) and p_['rc'] in (-11, -6, -7, -4, -8) and p_.get('in_flight') is not None:
+                job_ = jobs[p_['in_flight']]
+                viols.append(({'key': f"worker_crashed:signal{-p_['rc']}",
+                               'msg': f"the interpreter died with signal {-p_['rc']} while running job #{p_['in_flight']} "
+                                      f"({str({k_: v_ for k_, v_ in job_.items() if k_ in ('names', 'kinds', 'mode', 'n', 'group')})[:300]}): "
+                                      f"{(p_.get('stderr') or '')[-400:]}",
+                               'witness': {'stderr_tail': (p_.get('stderr') or '')[-1500:]}}, job_))
     findings = load_findings(prop)
     known_seen, new_by_key = {}, {}
     for v, job in viols:
